@@ -214,11 +214,11 @@ pub fn check_lookups(v: &Value, r: &RVal) -> Result<u64, String> {
 					// every way of consuming the lookup iterators
 					n += crate::monitor::check_iter(&format!("indexes_of({:?})", k), &|| o.indexes_of(k), &wanti)?;
 					let ptrs: Vec<usize> = wanti.iter().map(|&i| &o.entries()[i].value as *const Value as usize).collect();
-					n += crate::monitor::check_iter(&format!("get({:?})", k), &|| o.get(k).map(|v| v as *const Value as usize), &ptrs)?;
+					n += crate::monitor::check_iter_by(&format!("get({:?})", k), &|| o.get(k), &|v: &Value| v as *const Value as usize, &ptrs)?;
 					let wi: Vec<(usize, usize)> = wanti.iter().zip(&ptrs).map(|(i, p)| (*i, *p)).collect();
-					n += crate::monitor::check_iter(&format!("get_with_index({:?})", k), &|| o.get_with_index(k).map(|(i, v)| (i, v as *const Value as usize)), &wi)?;
+					n += crate::monitor::check_iter_by(&format!("get_with_index({:?})", k), &|| o.get_with_index(k), &|(i, v): (usize, &Value)| (i, v as *const Value as usize), &wi)?;
 					let ep: Vec<usize> = wanti.iter().map(|&i| &o.entries()[i] as *const json_syntax::object::Entry as usize).collect();
-					n += crate::monitor::check_iter(&format!("get_entries({:?})", k), &|| o.get_entries(k).map(|e| e as *const json_syntax::object::Entry as usize), &ep)?;
+					n += crate::monitor::check_iter_by(&format!("get_entries({:?})", k), &|| o.get_entries(k), &|e: &json_syntax::object::Entry| e as *const json_syntax::object::Entry as usize, &ep)?;
 				}
 			}
 			for (e, (_, rv)) in o.iter().zip(ro) {
